@@ -70,11 +70,11 @@ def parse_tag(tag):
     """Routing tag -> (id, serial) or None: the documented <hex id>_<hex serial>
     format read with strtol / strtoul semantics (sign, 0x prefix, clamping)."""
     v, rest = c_strtol(tag, 16)
-    if not rest.startswith("_"):
-        return None
+    if rest == tag or not rest.startswith("_"):
+        return None              # no id at all ("_5"), or no separator
     s, rest2 = c_strtol(rest[1:], 16)
-    if rest2 != "":
-        return None
+    if rest2 != "" or rest[1:] == "":
+        return None              # trailing text, or no serial at all ("5_")
     v = max(-2 ** 63, min(2 ** 63 - 1, v))
     cid = ((v + 2 ** 31) % 2 ** 32) - 2 ** 31
     if s < 0:
